@@ -390,6 +390,15 @@ def generate(rng, tier):
         # (the shapes of the cross-reference chain behind a prefix run in every configuration under C01; here one each)
         o, ch = b"st"[j % 2:j % 2 + 1], b"cn"[(j // 2) % 2:(j // 2) % 2 + 1]
         yield Case("walk", [o, ch, data], model=False, tags=["planted", tag.split("=")[0][:60]], note=tag)
+    # a clique of ten Type0 fonts each naming all ten as /DescendantFonts (3 kB): the first recursive-reference error has to end
+    # the load; a reader that drops failing elements and carries on walks every simple path of the clique (10! loads) —
+    # the two-object cycles above cannot tell the two apart (mutation sweep, survivor #0063)
+    N, Ref = hostile.N, hostile.Ref
+    t0 = {"Type": N("Font"), "Subtype": N("Type0"), "BaseFont": N("X"), "Encoding": N("Identity-H")}
+    clique = hostile._r(hostile._mini({4 + i: dict(t0, DescendantFonts=[Ref(4 + j) for j in range(10)]) for i in range(10)}, res={"Font": {"F": Ref(4)}}))
+    for o in (b"s", b"t"):
+        for ch in (b"c", b"n"):
+            yield Case("walk", [o, ch, clique], model=False, tags=["planted", "cycle:descendant-clique"], note="cycle:descendant-clique")
 
 
 # planted numeric fields that reach sites repaired (and proved) by other areas
